@@ -626,6 +626,70 @@ Section Clauses.
     inversion HQ as [|? ? Hs Hr]; subst. cbn [map flat_map F fst snd]. rewrite map_app, <- IH by exact Hr.
     f_equal. apply occ_node_fact. exact Hs.
   Qed.
+
+  (* ---- clause 6, the proved half: hints start at a keyed exported child *)
+  Lemma kid_pairs_fact keep ch srcs tgts hs k :
+    kid_pairs keep ch (ERegion k srcs tgts (kids keep ch (map E ch)) hs) =
+    map F (filter (fun c => keep (kind_t c)) ch).
+  Proof.
+    unfold kid_pairs. cbn [r_ch]. induction ch as [|c r IH]; [reflexivity|].
+    cbn [map filter]. rewrite kids_cons. cbn [zipk]. destruct (keep (kind_t c)); [|exact IH].
+    cbn [app map]. rewrite IH. reflexivity.
+  Qed.
+
+  Lemma E_keys s : good (kind_t s) = true ->
+    e_keys (E s) = if needs_key ns ls (idx_t s) then [idx_t s] else [].
+  Proof.
+    destruct s as [i ch]. unfold kind_t, idx_t. cbn [info]. intros Hg. rewrite E_unfold. unfold exp_shallow.
+    destruct (n_kind i); try discriminate; reflexivity.
+  Qed.
+
+  Lemma hints_src_fact ch :
+    forallb (fun c => df_child (kind_t c)) ch = true -> hints_src_keyed ch (dfgR h f g ch) = true.
+  Proof.
+    intros Hdf. unfold hints_src_keyed, dfgR. cbv zeta. rewrite kid_pairs_fact. cbn [r_hints].
+    apply forallb_forall. intros [a b] Hin. unfold dfg_hints in Hin. apply in_flat_map in Hin.
+    destruct Hin as [c [Hc Hin]]. destruct (exported (kind_t c)) eqn:Ex; [|contradiction].
+    unfold hints_of in Hin. apply in_map_iff in Hin. destruct Hin as [s0 [Heq Hs0]]. inversion Heq; subst a b.
+    apply existsb_exists. exists (F c). split.
+    - apply in_map. apply filter_In. split; assumption.
+    - cbn [F fst snd]. rewrite Z.eqb_refl. cbn [andb].
+      rewrite forallb_forall in Hdf. rewrite E_keys by (apply df_child_good; [apply Hdf; exact Hc | exact Ex]).
+      assert (Hk : needs_key ns ls (idx_t c) = true).
+      { unfold needs_key. apply orb_true_iff. left. apply existsb_exists. exists s0.
+        apply filter_In in Hs0. destruct Hs0 as [A B]. split; assumption. }
+      rewrite Hk. cbn [mem]. rewrite Z.eqb_refl. reflexivity.
+  Qed.
+
+  Lemma wf_df_children s : tree_wf s = true ->
+    match kind_t s with KDFG | KLoop | KBlock | KFuncDefn | KCase => True | _ => False end ->
+    forallb (fun c => df_child (kind_t c)) (children s) = true.
+  Proof.
+    destruct s as [i ch]. unfold kind_t. cbn [info children tree_wf]. intros Hw Hk.
+    apply andb_true_iff in Hw. destruct Hw as [Hn _]. unfold node_wf in Hn.
+    destruct (n_kind i); try contradiction;
+      (apply andb_true_iff in Hn; destruct Hn as [Hn _]; apply andb_true_iff in Hn; destruct Hn as [A _]; exact A).
+  Qed.
+
+  Theorem model_order_hints_source_keyed : order_hints_source_keyed h (named_module h f g) = true.
+  Proof.
+    unfold order_hints_source_keyed. apply clause_by_nodes. intros s _ [Hw Hg]. unfold l_hints_src.
+    destruct (kind_t s) eqn:K; try reflexivity.
+    - rewrite E_regs'. unfold regs_of. pose proof (wf_df_children s Hw) as Hd. unfold kind_t in K, Hd. rewrite K in *.
+      apply hints_src_fact. apply Hd. exact I.
+    - rewrite E_regs'. unfold regs_of. pose proof (wf_df_children s Hw) as Hd. unfold kind_t in K, Hd. rewrite K in *.
+      apply hints_src_fact. apply Hd. exact I.
+    - rewrite E_regs'. unfold regs_of. pose proof (wf_df_children s Hw) as Hd. unfold kind_t in K, Hd. rewrite K in *.
+      apply hints_src_fact. apply Hd. exact I.
+    - (* Cond *) rewrite (cond_regs' s Hw K).
+      pose proof (wf_children s Hw) as Hc. pose proof (wf_cond_cases s Hw K) as Hk.
+      induction (children s) as [|c r IH]; [reflexivity|].
+      cbn [forallb map] in *. apply andb_true_iff in Hc, Hk. destruct Hc as [Hc1 Hc2]. destruct Hk as [Hk1 Hk2].
+      rewrite IH by assumption. rewrite andb_true_r. apply hints_src_fact. apply (wf_df_children c Hc1).
+      destruct (kind_t c); try discriminate; exact I.
+    - rewrite E_regs'. unfold regs_of. pose proof (wf_df_children s Hw) as Hd. unfold kind_t in K, Hd. rewrite K in *.
+      apply hints_src_fact. apply Hd. exact I.
+  Qed.
 End Clauses.
 
 (* ------------------------------------------------------------------ the model's own names *)
@@ -678,3 +742,53 @@ Proof.
   { apply in_map_iff. exists (q, n'). split; [reflexivity | exact Hq]. }
   specialize (H Hp' _ Hq'). cbn [fst snd] in H. apply eqb_prop in H. rewrite H, port_eqb_spec. apply rep_spec.
 Qed.
+
+(* ------------------------------------------------------------------ the theorems about Hugr.to_model *)
+
+Section Main.
+  Variable h : hugr.
+  Hypothesis Hv : valid_b h = true.
+  Let R := rep (h_links h).
+
+  Theorem export_regions_mirror_hierarchy : regions_mirror_hierarchy h (export h) = true.
+  Proof. exact (model_regions_mirror_hierarchy h R idZ Hv). Qed.
+  Theorem export_ports_exactly_signature : ports_exactly_signature h (export h) = true.
+  Proof. exact (model_ports_exactly_signature h R idZ Hv). Qed.
+  Theorem export_applied_symbols_defined : applied_symbols_defined Z.eqb h (export h) = true.
+  Proof. exact (model_applied_symbols_defined h R idZ Z.eqb Zeqb_spec' (fun a b H => H) Hv). Qed.
+  Theorem export_order_hints_source_keyed : order_hints_source_keyed h (export h) = true.
+  Proof. exact (model_order_hints_source_keyed h R idZ Hv). Qed.
+  Theorem export_metadata_carried : metadata_carried h (export h) = true.
+  Proof. exact (model_metadata_carried h R idZ Hv). Qed.
+End Main.
+
+(* ------------------------------------------------------------------ the guard is satisfiable *)
+
+(* module { decl f; defn main { Input; Output; Call f; Not; order edge Call -> Not } } *)
+Definition ex_hugr : hugr :=
+  mkH (HNode (mkN 0 KModule 0 0 (-1) 0 0 0 [])
+        [HNode (mkN 1 KFuncDecl 0 0 (-1) 1 0 0 []) [];
+         HNode (mkN 2 KFuncDefn 0 0 (-1) 2 0 0 [(7, 8)])
+           [HNode (mkN 3 KInput 0 1 (-1) 0 0 0 []) [];
+            HNode (mkN 4 KOutput 1 0 (-1) 0 0 0 []) [];
+            HNode (mkN 5 KCall 1 1 1 0 3 0 []) [];
+            HNode (mkN 6 KExt 1 1 (-1) 0 4 0 [(5, 6)]) []]])
+      [mkL 1 0 5 1; mkL 3 0 5 0; mkL 5 0 6 0; mkL 6 0 4 0; mkL 5 (-1) 6 (-1)].
+
+Example ex_valid : valid_b ex_hugr = true /\ valid_order_b ex_hugr = true /\ stars_b ex_hugr = true.
+Proof. vm_compute. repeat split. Qed.
+Example ex_no_error : export_err ex_hugr = false.
+Proof. vm_compute. reflexivity. Qed.
+(* on this HUGR the model meets every clause, the order-hint clause included *)
+Example ex_spec : spec_b port_eqb Z.eqb ex_hugr (export ex_hugr) = true.
+Proof. vm_compute. reflexivity. Qed.
+(* and the clauses are not trivially true: listing the static port of the call breaks two of them *)
+Example ex_spec_rejects :
+  let bad := match export ex_hugr with
+             | ERegion k s t [d; ENode o sg i ou [ERegion k' s' t' (ENode co csg ci cou cr ck cm :: rest) hh] ks m] hs =>
+                 ERegion k s t [d; ENode o sg i ou
+                   [ERegion k' s' t' (ENode co csg (ci ++ [rep (h_links ex_hugr) (inp 5 1)]) cou cr ck cm :: rest) hh] ks m] hs
+             | r => r
+             end in
+  ports_exactly_signature ex_hugr bad = false.
+Proof. vm_compute. reflexivity. Qed.
